@@ -1,8 +1,8 @@
 /-
-Union-find internals (C05): the decidable well-formedness predicate `graphLike` on a
-parity-check matrix (rectangular, 0/1 entries, every column of weight ≤ 2, no two rows sharing
-two columns) implies the hypotheses `GraphOK`, `RectBin` of the correctness proofs; and the
-final statements for `Support.decode()`.
+Union-find internals (C05): the decidable well-formedness predicate `multigraphLike` on a
+parity-check matrix (rectangular, 0/1 entries, every column of weight ≤ 2, two rows sharing
+fewer than 256 columns; `graphLike`: at most one) implies the hypotheses `GraphOK`, `RectBin` of
+the correctness proofs; and the final statements for `Support.decode()`.
 -/
 import PanqecVerif.Proofs.UnionFindGrowG
 
@@ -36,8 +36,8 @@ theorem cnt_ge_three (m : Nat) (f : Nat → Bool) (a b c : Nat) (ha : a < m) (hb
       rcases h with (h | h) | h <;> subst h <;> assumption)
   omega
 
-theorem graphLike_ok {H : Mat} (h : graphLike H = true) : GraphOK H ∧ RectBin H := by
-  unfold graphLike at h
+theorem multigraphLike_ok {H : Mat} (h : multigraphLike H = true) : GraphOK H ∧ RectBin H := by
+  unfold multigraphLike at h
   simp only [Bool.and_eq_true, List.all_eq_true, decide_eq_true_eq, List.mem_range,
     Bool.or_eq_true] at h
   obtain ⟨⟨hrows, hcols⟩, hpairs⟩ := h
@@ -64,15 +64,64 @@ theorem graphLike_ok {H : Mat} (h : graphLike H = true) : GraphOK H ∧ RectBin 
       (hrange s3 q h3).1 hne.1 hne.2.1 hne.2.2 h1 h2 h3
     have := hcols q hq
     omega
-  · intro i j q q' hij h1 h2 h3 h4
-    by_contra hne
-    have hi := (hrange i q h1).1
-    have hj := (hrange j q h2).1
-    have := cnt_ge_two (ncols H) (fun q => hb H i q && hb H j q) q q' (hrange i q h1).2
-      (hrange i q' h3).2 hne (by simp [h1, h2]) (by simp [h3, h4])
-    rcases hpairs i hi j hj with h | h
-    · exact hij h
-    · omega
+  · intro i j hij
+    by_cases hi : i < H.length
+    · by_cases hj : j < H.length
+      · rcases hpairs i hi j hj with h | h
+        · exact absurd h hij
+        · exact h
+      · have : cnt (ncols H) (fun q => hb H i q && hb H j q) = 0 := by
+          apply cnt_eq_zero
+          intro q _
+          cases h2 : hb H j q
+          · simp
+          · exact absurd (hb_lt h2) hj
+        omega
+    · have : cnt (ncols H) (fun q => hb H i q && hb H j q) = 0 := by
+        apply cnt_eq_zero
+        intro q _
+        cases h1 : hb H i q
+        · simp
+        · exact absurd (hb_lt h1) hi
+      omega
+
+/-- a simple graph is a multigraph -/
+theorem graphLike_multi {H : Mat} (h : graphLike H = true) : multigraphLike H = true := by
+  unfold graphLike at h
+  unfold multigraphLike
+  simp only [Bool.and_eq_true, List.all_eq_true, decide_eq_true_eq, List.mem_range,
+    Bool.or_eq_true] at h ⊢
+  refine ⟨h.1, ?_⟩
+  intro i hi j hj
+  rcases h.2 i hi j hj with h' | h'
+  · exact Or.inl h'
+  · exact Or.inr (by omega)
+
+theorem closedGraph_multi {H : Mat} (h : closedGraph H = true) : closedMultigraph H = true := by
+  unfold closedGraph at h
+  unfold closedMultigraph
+  rw [Bool.and_eq_true] at h ⊢
+  exact ⟨graphLike_multi h.1, h.2⟩
+
+theorem graphLike_ok {H : Mat} (h : graphLike H = true) : GraphOK H ∧ RectBin H :=
+  multigraphLike_ok (graphLike_multi h)
+
+/-- two different rows sharing two different columns: not a simple graph -/
+theorem graphLike_simple {H : Mat} (h : graphLike H = true) (i j q q' : Nat) (hij : i ≠ j)
+    (h1 : hb H i q = true) (h2 : hb H j q = true) (h3 : hb H i q' = true)
+    (h4 : hb H j q' = true) : q = q' := by
+  obtain ⟨G, _⟩ := graphLike_ok h
+  unfold graphLike at h
+  simp only [Bool.and_eq_true, List.all_eq_true, decide_eq_true_eq, List.mem_range,
+    Bool.or_eq_true] at h
+  by_contra hne
+  have hi := (G.inRange i q h1).1
+  have hj := (G.inRange j q h2).1
+  have := cnt_ge_two (ncols H) (fun q => hb H i q && hb H j q) q q' (G.inRange i q h1).2
+    (G.inRange i q' h3).2 hne (by simp [h1, h2]) (by simp [h3, h4])
+  rcases h.2 i hi j hj with h' | h'
+  · exact hij h'
+  · omega
 
 /-- a binary syndrome is its own list of defect flags -/
 theorem defect_flags (m : Nat) (sy : Vec) (hlen : sy.length = m) (hbin : ∀ x, x ∈ sy → x < 2) :
@@ -97,17 +146,18 @@ theorem sectorSyndrome_binary (M : Mat) (v : Vec) : ∀ x, x ∈ sectorSyndrome 
   obtain ⟨r, _, rfl⟩ := hx
   omega
 
-/-- **`Support(sy, H).decode()`, partial correctness** for every graph-like matrix, every
+/-- **`Support(sy, H).decode()`, partial correctness** for every multigraph-like matrix
+    (parallel and dangling edges allowed), every
     syndrome vector of the right length and EVERY schedule of set iteration orders: either the
     growth loop does not terminate within the fuel, or the peeling of every cluster succeeds
     (no divergence of `_build_tree` / `peel`, no shape error) and the returned vector is binary, of
     length `n`, with syndrome exactly the defect flags; the run never leaves the modelled fragment. -/
-theorem decodeWith_partial {H : Mat} (hG : graphLike H = true) (sy : Vec) (sched : List (List Int)) :
+theorem decodeWith_partial {H : Mat} (hG : multigraphLike H = true) (sy : Vec) (sched : List (List Int)) :
     ((decodeWith H sy sched).outcome = .growthDiverges ∨
       ∃ c, (decodeWith H sy sched).outcome = .ok c ∧ c.length = ncols H ∧ (∀ x, x ∈ c → x < 2) ∧
         sectorSyndrome H c = (List.range H.length).map fun s => b2n (defect sy s)) ∧
     (decodeWith H sy sched).bad = false := by
-  obtain ⟨G, R⟩ := graphLike_ok hG
+  obtain ⟨G, R⟩ := multigraphLike_ok hG
   unfold decodeWith
   simp only []
   cases hterm : (clustering H sy sched).terminated
